@@ -214,7 +214,7 @@ def one_program(seed, i):
     return res
 
 
-CF_FEATS = {"alias_in_block", "if", "else", "for", "while", "break", "nested", "helper_call", "mod", "bound_name", "tuple_assign",
+CF_FEATS = {"alias_in_block", "alias_of_param", "if", "else", "for", "while", "break", "nested", "helper_call", "mod", "bound_name", "tuple_assign",
             "return_dup", "return_param", "unminimised"}
 
 
@@ -393,6 +393,8 @@ def syn_features(src):
             elif isinstance(n, ast.Assign):
                 if isinstance(n.value, ast.Name) and in_cf:
                     f.add("alias_in_block")
+                if isinstance(n.value, ast.Name) and not in_cf and n.value.id in {a.arg for a in main.args.args}:
+                    f.add("alias_of_param")
                 if isinstance(n.targets[0], ast.Tuple):
                     f.add("tuple_assign")
                 for x in ast.walk(n.value):
